@@ -283,29 +283,43 @@ def fresh_context(an, rep):
                        "DeserializationContext; the convenience entry points go through serialize()")
     core = an.core()
     ser = core.body("serialize")
-    ex = mir.Expr(ser)
-    facts = guards.edge_conditions(ser, ex)
-    calls = {info["key"]: (bb, t) for bb, t, info in mir.calls(ser)}
-    R.check("SerializationContext<Output>::new" in calls, "serialize", "SerializationContext::new", "no fresh context is built")
-    sub = [(bb, t, info) for bb, t, info in mir.calls(ser) if info["base_key"] == "BinarySerializer::serialize"]
-    R.check(len(sub) == 1, "serialize", "value.serialize", "expected exactly one value.serialize call, found %d" % len(sub))
-    io = calls.get("SerializationContext<Output>::into_output")
-    if R.check(io is not None, "serialize", "into_output", "output is not taken from the context with into_output()"):
-        bb = io[0]
-        on_ok = False
-        for cond, val, d in facts.get(bb, ()):
-            if cond[0] == "discr":
-                inner = mir.strip_refs(cond[1])
-                if inner[0] == "call" and inner[1].endswith("Try>::branch") and val == 0:
-                    src = mir.strip_refs(inner[3][0])
-                    if src[0] == "call" and src[1] == "BinarySerializer::serialize":
-                        on_ok = True
-                # explicit `match value.serialize(..) { Ok(..) => .., Err(e) => return Err(e) }`: Ok is discriminant 0
-                if inner[0] == "call" and inner[1] == "BinarySerializer::serialize" and val == 0:
-                    on_ok = True
-        R.check(on_ok, "serialize", "into_output dominated by Ok", "into_output() is not dominated by the Continue/Ok edge "
-                "of `value.serialize(&mut context)?`: a failed encoding could hand back bytes", mir.loc(ser, bb),
-                sample={"fn": "serialize", "into_output": "dominated by the Ok edge of value.serialize"})
+    from .. import walk
+    n_ok = n_err = 0
+    for p in walk.walk(ser, core):
+        if p.outcome[0] != "return":
+            continue
+        out = p.outcome[1]
+        in_term = [x for x in mir.walk_expr(out) if x[0] == "call"]
+        keys = [c[2] for c in p.calls()] + [x[1] for x in in_term]
+        base = [c[3] for c in p.calls()]
+        R.check("SerializationContext<Output>::new" in keys, "serialize", "SerializationContext::new", "no fresh context is built")
+        R.check(base.count("BinarySerializer::serialize") == 1, "serialize", "value.serialize",
+                "expected exactly one value.serialize call, found %d" % base.count("BinarySerializer::serialize"))
+        # which edge of value.serialize(..) this path took
+        edge = None
+        for a in p.atoms():
+            c = a[1]
+            if c[0] != "discr":
+                continue
+            inner = mir.strip_refs(c[1])
+            if inner[0] == "try":
+                inner = mir.strip_refs(inner[1])
+            if inner[0] == "call" and inner[1] == "BinarySerializer::serialize":
+                v = walk.atom_variant(a)
+                edge = "ok" if v in ("Continue", "Ok") else "err" if v in ("Break", "Err") else edge
+        is_err = walk.is_err_term(out) is not False
+        hands_back = any(k == "SerializationContext<Output>::into_output" for k in keys)
+        if is_err:
+            n_err += 1
+            R.check(not any(x[1] == "SerializationContext<Output>::into_output" for x in in_term), "serialize",
+                    "error path", "an error return carries the output of the context")
+        else:
+            n_ok += 1
+            R.check(hands_back, "serialize", "into_output", "output is not taken from the context with into_output()")
+            R.check(edge == "ok", "serialize", "into_output dominated by Ok", "an Ok return is not on the Continue/Ok edge of "
+                    "`value.serialize(&mut context)`: a failed encoding could hand back bytes", mir.loc(ser, 0),
+                    sample={"fn": "serialize", "into_output": "only on the Ok edge of value.serialize"})
+    R.check(n_ok >= 1 and n_err >= 1, "serialize", "paths", "expected an Ok and an error path (found %d / %d)" % (n_ok, n_err))
     de = core.body("deserialize")
     dcalls = [info["key"] for _, _, info in mir.calls(de)]
     R.check("DeserializationContext::new" in dcalls, "deserialize", "DeserializationContext::new", "no fresh context is built")
